@@ -277,6 +277,8 @@ def _tags(content, layout, model):
         t.append("chrom_tree_after_data")
     if layout["zooms"] and layout.get("zoom_count_word"):
         t.append("zoom_count_word")
+    if f.get("zoom_blocks_spanning_chroms"):
+        t.append("zoom_block_spans_chromosomes")
     if not f["trailing_magic"]:
         t.append("no_trailing_magic")
     if model["total_summary"] is None:
